@@ -21,10 +21,16 @@ class FusedExporter:
         if isinstance(e, Fused):
             deps = [[self.nm(d._name), d.npartitions] for d in e.dependencies()]
             return ["fused", self.nm(e._name), e.npartitions, [self.member(x) for x in e.exprs], deps]
+        # operand positions are taken from the member's own task (classes such as Index override _task and add literals)
+        from dask.utils import apply
+        deps = {d._name: d for d in e.dependencies()}
+        t = e._task(0)
+        targs = list(t[2]) if (t and t[0] is apply) else list(t[1:])
         args = []
-        for pos, op in enumerate(e._args):
-            if isinstance(op, Expr):
-                args.append(["dep", self.nm(op._name), op.npartitions, op.ndim])
+        for pos, a in enumerate(targs):
+            if isinstance(a, tuple) and len(a) == 2 and isinstance(a[0], str) and a[0] in deps:
+                d = deps[a[0]]
+                args.append(["dep", self.nm(d._name), d.npartitions, d.ndim])
             else:
                 args.append(["lit", pos])
         return ["plain", self.nm(e._name), e.npartitions, e.ndim, args]
